@@ -379,7 +379,7 @@ Theorem C10_mt_apply_bin_assignments :
   forall op s (c : C) f g,
   MtOK s -> MCacheOK cget s c -> ref_ok s f -> ref_ok s g ->
   exists s' c' r, mt_apply_bin gt C cget cadd (FUEL s) s c op f g = Some (s', c', r) /\
-    MtOK s' /\ mext s s' /\
+    MtOK s' /\ mext s s' /\ ref_ok s' r /\
     forall a, mfun_of s' r a = mop_eval op (mfun_of s f a) (mfun_of s g a).
 Proof. exact mt_apply_bin_mfun. Qed.
 Print Assumptions C10_mt_apply_bin_assignments.
@@ -430,7 +430,7 @@ Theorem C10_mt_ite_assignments :
   forall s (c : C) f g h,
   MtOK s -> MCacheOK cget s c -> ref_ok s f -> ref_ok s g -> ref_ok s h ->
   exists s' c' r, mt_apply_ite C cget cadd (FUEL s) s c f g h = Some (s', c', r) /\
-    MtOK s' /\ mext s s' /\
+    MtOK s' /\ mext s s' /\ ref_ok s' r /\
     forall a, mfun_of s' r a =
       if i64_is_zero (mfun_of s f a) then mfun_of s h a else mfun_of s g a.
 Proof. exact mt_apply_ite_mfun. Qed.
@@ -483,7 +483,7 @@ Theorem C10_mt_restrict_assignments :
   forall s (c : C) f vars lits,
   MtOK s -> MCacheOK cget s c -> ref_ok s f -> Cube s vars lits ->
   exists s' c' r, mt_restrict C cget cadd (FUEL s) s c f vars = Some (s', c', r) /\
-    MtOK s' /\ mext s s' /\
+    MtOK s' /\ mext s s' /\ ref_ok s' r /\
     forall a, mfun_of s' r a =
       mfun_of s f (fun v => match nth_error (s_v2l s) v with
                             | Some l => match assoc_nat lits l with Some b => b | None => a v end
